@@ -65,24 +65,33 @@ def run(ctx):
     rd2 = tlc.model_check("Tacd", MC_CFG % (tlc.tla_set(LABELS), '{"AcceptErrorEndsLoop"}', 2), "C17_dev2", workers=2, timeout=600)
     if not rd2["violated"]:
         raise ToolError("Tacd model sanity: an accept loop that ends on an accept() error is not caught")
+    rd3 = tlc.model_check("Tacd", MC_CFG % (tlc.tla_set(LABELS), '{"DeadlineSetOnce"}', 2), "C17_dev3", workers=2, timeout=600)
+    if not rd3["violated"]:
+        raise ToolError("Tacd model sanity: a listener that stops serving once it is older than its time limit is not caught")
     hists, seen = [], set()
     for h in tlc.replays(r["raw"]):
         k = tuple(h)
         if k not in seen and len(h) > 1:
             seen.add(k)
             hists.append(h)
+    if ctx.tier != "thorough":
+        # a slow peer costs 33 s of wall time: the quick tier keeps four of the histories that contain one (they run beside the others)
+        slow = [h for h in hists if "slow_peer" in h]
+        keep = [["slow_peer", "valid"]] + [h for h in slow if h[0] != "slow_peer" or len(h) > 2][ctx.seed % 5::7][:3]
+        hists = [h for h in hists if "slow_peer" not in h] + keep
     rng = random.Random(ctx.seed)
     if ctx.tier != "thorough":
         # all histories of length <= 2, plus a sample of longer ones taken from a deeper model run
         r3 = tlc.model_check("Tacd", MC_CFG % (tlc.tla_set(LABELS), "{}", 4), "C17_mc4", workers=4, timeout=900)
-        longer = [h for h in {tuple(x) for x in tlc.replays(r3["raw"])} if len(h) > 3]
+        longer = [h for h in {tuple(x) for x in tlc.replays(r3["raw"])} if len(h) > 3 and "slow_peer" not in h]
         hists += [list(h) for h in rng.sample(sorted(longer), 25)]
     root = fresh_dir("C17", "runs")
     jobs = [(i, h, root, True) for i, h in enumerate(hists)]
     # the debug build for contrast (a panic there does not abort the process): a sample
     jobs += [(10000 + i, h, root, False) for i, h in enumerate(hists[:: max(1, len(hists) // 12)])]
+    jobs.sort(key=lambda j: "slow_peer" not in j[1])      # the long ones first
     lines, owner = [], []
-    with cf.ThreadPoolExecutor(max_workers=10) as ex:
+    with cf.ThreadPoolExecutor(max_workers=12) as ex:
         for idx, ev in ex.map(run_history, jobs):
             for e in ev:
                 lines.append(e)
@@ -106,7 +115,7 @@ def run(ctx):
            "samples": [jobs[0][1], jobs[len(jobs) // 2][1], jobs[-1][1]], "histories_release_build": rel, "histories_debug_build": len(jobs) - rel,
            "connections_made": sum(1 for e in lines if e["e"] in ("Tls", "Hostile")), "valid_handshakes_judged": sum(1 for e in lines if e["e"] == "Tls"),
            "max_history_length": max(len(j[1]) for j in jobs) - 1, "exhaustive": ctx.tier == "thorough",
-           "rule": "TLC enumerates every ordered selection of up to %d behaviours from the catalogue (connect+close, garbage, plain HTTP, TLS without ALPN, TLS with foreign "
+           "rule": "TLC enumerates every ordered selection of up to %d behaviours from the catalogue (connect+close, connect+reset, a peer trickling its ClientHello for 33 s, garbage, plain HTTP, TLS without ALPN, TLS with foreign "
                    "ALPN, handshake abandoned after ClientHello, 50 stalled connections) followed by a valid handshake; each history is run against a fresh tacd built with "
                    "the shipped release profile (panic=abort) - and a sample against the debug build -, the process is probed after every connection and the final "
                    "handshake is judged like in C16" % depth}
